@@ -91,7 +91,8 @@ int    world_thr_index(pool_w *pw, tpt_p tpt);                       /* -1 pvt?,
 pool_w *world_pool_of_tpt(tpt_p tpt, int *idx);
 msg_rec *world_new_msg(int op, int kind, int pool, int dst, uint32_t flags);
 void   world_track_queues(int k);                                   /* start the byte-stream ledger of pool k's queues */
-int    world_queue_junk(int pool, int thr, int k, int how);          /* put k stray bytes into a queue; returns bytes written */
+int    world_queue_junk(int pool, int thr, int k, int how);
+int    world_msg_was_read(const msg_rec *m);                          /* its packet was read from the queue by a worker */          /* put k stray bytes into a queue; returns bytes written */
 int    world_send(msg_rec *m, tpt_p src_explicit);                   /* performs tpt_msg_send with ledger bookkeeping */
 void   world_msg_cb(tpt_p tpt, void *udata);
 void   world_check_messages(int final);                              /* C05 oracle at quiescence */
